@@ -237,8 +237,9 @@ func (f EncodingFunc) Encode(v any) error { return f(v) }
 
 // SetContentType initializes the response Content-Type header given a MIME
 // type. If the Content-Type header is already set and the MIME type is
-// "application/json" or "application/xml" then SetContentType appends a suffix
-// to the header ("+json" or "+xml" respectively).
+// "application/json" or "application/xml" then SetContentType makes the media
+// type of the header end with the corresponding suffix ("+json" or "+xml"
+// respectively), replacing a different suffix if there is one.
 func SetContentType(w http.ResponseWriter, ct string) {
 	h := w.Header().Get("Content-Type")
 	if h == "" {
@@ -251,19 +252,24 @@ func SetContentType(w http.ResponseWriter, ct string) {
 		w.Header().Set("Content-Type", ct)
 		return
 	}
-	if strings.Contains(h, "+") {
-		return
-	}
 	suffix := "+json"
 	if ct == "application/xml" {
 		suffix = "+xml"
 	}
+	// keep the parameters behind the suffixed media type
+	mt, params := h, ""
 	if i := strings.Index(h, ";"); i >= 0 {
-		// keep the parameters behind the suffixed media type
-		w.Header().Set("Content-Type", strings.TrimRight(h[:i], " \t")+suffix+h[i:])
+		mt, params = strings.TrimRight(h[:i], " \t"), h[i:]
+	}
+	if strings.HasSuffix(mt, suffix) {
 		return
 	}
-	w.Header().Set("Content-Type", h+suffix)
+	if i := strings.LastIndex(mt, "+"); i >= 0 {
+		// the media type already carries another structured syntax suffix:
+		// announce the encoding that is actually used
+		mt = mt[:i]
+	}
+	w.Header().Set("Content-Type", mt+suffix+params)
 }
 
 func newTextEncoder(w io.Writer, ct string) Encoder {
